@@ -9,14 +9,16 @@ RULE = ('Hypothesis-generated World histories weighted towards delete_entity(e) 
         'process() calls, with a lowest-priority sentinel processor observing the world at the moment '
         'processors start; deferred deletion of an id that owns nothing is the only legitimate source of a '
         'failing process(); handler components can be armed so that their on_remove, when it runs inside '
-        'process(), deletes (deferred or immediately) or strips another entity; outside process() armed callbacks '
+        'process(), deletes (deferred or immediately) or strips another entity - or RAISES (user code failing: the '
+        'frame fails, then the next three frames must complete and no query may raise; the rest of such a history '
+        'is not modelled); outside process() armed callbacks '
         'may issue operations as well (e.g. an on_remove running during an immediate deletion that deferred-'
         'deletes its own entity). Oracle: reference model of attached/pending. Non-trivial = a deferred delete with '
         '>= 1 intervening operation on the same id before process, or a legitimately failed frame followed by '
         'further frames. Distinct = sha1 of canonical JSON.')
 ASSUMPTIONS = [
-    'no exceptions are injected into callbacks; callbacks may issue further World operations (only from '
-    'on_remove running inside process())',
+    'an exception is injected only into an on_remove running inside process() (the "failed process()" of the '
+    'statement); after it only "the world does not keep failing" is demanded, not which deletions were applied',
     'a deferred delete issued by a callback while a frame applies deletions may take effect in that frame or '
     'in the next one (either is accepted, the entity must not exist in between)',
     'an id whose row vanished while its deletion was pending is not re-populated before the next process()',
